@@ -302,6 +302,9 @@ class RadioDriver(CRTPDriver):
         parsed_uri = urlparse(uri)
         parsed_query = parse_qs(parsed_uri.query)
         parsed_path = parsed_uri.path.strip('/').split('/')
+        if parsed_path == ['']:
+            # No channel, datarate or address given: use the defaults
+            parsed_path = []
 
         # Open the USB dongle
         if len(parsed_uri.netloc) < 10 and parsed_uri.netloc.isdigit():
